@@ -1,7 +1,7 @@
 #!/usr/bin/env python3
 """Parallel compile wrapper used as the 'compiler' of the C07 harness.
 
-One translation unit with all 18 family instantiations takes ~50 s to compile, and the harness is
+One translation unit with all family instantiations takes ~50 s to compile, and the harness is
 rebuilt whenever /repo/include changes.  This wrapper compiles the SAME source once per part
 (-DC07_PART=k, k < C07_NPARTS; see the end of harness.cpp), at most C07_JOBS (default 4) compiler
 processes at a time, and links the objects.  It accepts the g++ command line the engine builds:
